@@ -11,7 +11,7 @@
 EXTENDS Integers, Sequences, FiniteSets, FiniteSetsExt, TLC
 
 CONSTANTS
-  N,            \* users 1..N; N+1 fee collector, N+2 pool, N+3 pos, N+4 DAO
+  N,            \* users 1..N; N+1 fee collector, N+2 pool, N+3 pos, N+4 DAO, N+5 all other addresses
   K,            \* number of parameters
   IAcl, IDao, IUpg,   \* indexes of gov/acl, gov/daoOwner, gov/upgrade
   GovFee,
@@ -23,7 +23,7 @@ CONSTANTS
 FEE == N + 1
 DAO == N + 4
 Users == 1..N
-Accts == 1..(N + 4)
+Accts == 1..(N + 6)   \* N+5 / N+6: every other address of the usual / of another length together (see Posmint.tla)
 Keys == 1..K
 
 VARIABLE gs
@@ -103,6 +103,9 @@ T(k, f) == [a |-> "Tx", kind |-> k, from |-> f, to |-> 0, amt |-> 0, pk |-> 0, s
 GTxChoices ==
   {[T("changeparam", f) EXCEPT !.pk = k, !.val = v, !.idx = IF v = "v1" THEN 1 ELSE IF v = "v2" THEN 2 ELSE 0] :
       f \in Users, k \in (Keys \ {IAcl, IDao, IUpg}) \cup {K + 1}, v \in {"v1", "v2", "malformed", "wrongtype"}}
+  \* key K+2 stands for "nosuch/Foo": a subspace nobody registered (no ACL lists it, so nobody owns it:
+  \* refused before the subspace is looked up - the lookup of an unknown subspace ends the process)
+  \cup {[T("changeparam", f) EXCEPT !.pk = K + 2, !.val = "v1", !.idx = 1] : f \in Users}
   \cup {[T("changeparam", f) EXCEPT !.pk = k, !.sfx = TRUE, !.val = "v1", !.idx = 1] : f \in Users, k \in {2, 5}}
   \cup {[T("changeparam", f) EXCEPT !.pk = k, !.val = "partial"] : f \in Users, k \in {3, IUpg}}
   \cup {[T("changeparam", f) EXCEPT !.pk = IAcl, !.val = "acl", !.aclv = v] : f \in Users, v \in AclVariants}
@@ -110,7 +113,7 @@ GTxChoices ==
   \cup {[T("changeparam", f) EXCEPT !.pk = IDao, !.val = "id", !.id = i] : f \in Users, i \in Users}
   \cup {[T("changeparam", f) EXCEPT !.pk = IUpg, !.val = "upg", !.idx = h] : f \in Users, h \in {1001, 1002}}
   \cup {[T("upgrade", f) EXCEPT !.idx = h] : f \in Users, h \in {0, 2001, 2002}}
-  \cup {[T("daotransfer", f) EXCEPT !.to = t, !.amt = x] : f \in Users, t \in Users \cup {DAO}, x \in Amts}
+  \cup {[T("daotransfer", f) EXCEPT !.to = t, !.amt = x] : f \in Users, t \in Users \cup {DAO, N + 5, N + 6}, x \in Amts}
   \cup {[T("daoburn", f) EXCEPT !.amt = x] : f \in Users, x \in Amts}
 
 GActs(s) ==
